@@ -34,7 +34,7 @@ class Refuse(Exception):
 
 
 def qs(name):
-    if not name.isidentifier() or '"' in name:
+    if not all(part.isidentifier() for part in name.split(".")) or '"' in name:
         raise Refuse("name %r" % name)
     return '"%s"%%string' % name
 
@@ -50,15 +50,37 @@ def coq_list(items):
 class Fn:
     """translation context of one function"""
 
-    def __init__(self, node, sigs):
+    def __init__(self, node, sigs, method=False, floats=False, numpy=()):
         self.node = node
         self.sigs = sigs                      # name -> (params, {param: default ast})
+        self.method = method                  # a method: `self.x` is the variable "self.x"; attributes read become parameters
+        self.floats = floats                  # target MiniPyF.v (None tests, substring tests, count / replace / upper)
+        self.numpy = set(numpy)               # names the module imports from numpy (where, argsort, sum, array, zeros)
         self.params = [a.arg for a in node.args.args]
         a = node.args
         if a.vararg or a.kwarg or a.kwonlyargs or a.posonlyargs or node.decorator_list:
             raise Refuse("%s: signature" % node.name)
+        self.attrs_read, self.attrs_written = [], []
+        if method:
+            if not self.params or self.params[0] != "self":
+                raise Refuse("%s: first parameter is not self" % node.name)
+            self.params = self.params[1:]
+            for n in ast.walk(node):
+                if isinstance(n, ast.Name) and n.id == "self":
+                    pass
+            for n in ast.walk(node):
+                if isinstance(n, ast.Attribute) and isinstance(n.value, ast.Name) and n.value.id == "self":
+                    tgt = self.attrs_written if isinstance(n.ctx, ast.Store) else self.attrs_read
+                    if n.attr not in tgt:
+                        tgt.append(n.attr)
+            # self may only occur as  self.<attr>  (never passed on, never re-bound)
+            attr_selfs = {id(n.value) for n in ast.walk(node) if isinstance(n, ast.Attribute) and isinstance(n.value, ast.Name)
+                          and n.value.id == "self"}
+            for n in ast.walk(node):
+                if isinstance(n, ast.Name) and n.id == "self" and id(n) not in attr_selfs:
+                    raise Refuse("%s: self used other than as self.<attribute>" % node.name)
         self.monitors = set()
-        self.assigned = set(self.params)
+        self.assigned = set(self.params) | {"self." + x for x in self.attrs_read + self.attrs_written}
         for n in ast.walk(node):
             if isinstance(n, ast.Name) and isinstance(n.ctx, ast.Store):
                 self.assigned.add(n.id)
@@ -69,6 +91,14 @@ class Fn:
                 if len(n.targets) != 1 or not isinstance(n.targets[0], ast.Name) or n.value.args or n.value.keywords:
                     raise Refuse("Monitor() binding")
                 self.monitors.add(n.targets[0].id)
+        for n in ast.walk(node):              # ... or through a tuple assignment  a, m, b = (x, Monitor(), y)
+            if isinstance(n, ast.Assign) and len(n.targets) == 1 and isinstance(n.targets[0], ast.Tuple) \
+                    and isinstance(n.value, ast.Tuple) and len(n.value.elts) == len(n.targets[0].elts):
+                for t, v in zip(n.targets[0].elts, n.value.elts):
+                    if isinstance(v, ast.Call) and isinstance(v.func, ast.Name) and v.func.id == "Monitor":
+                        if not isinstance(t, ast.Name) or v.args or v.keywords:
+                            raise Refuse("Monitor() binding")
+                        self.monitors.add(t.id)
         for m in self.monitors:               # a monitor name is bound exactly once, to Monitor()
             stores = [n for n in ast.walk(node) if isinstance(n, ast.Name) and n.id == m and isinstance(n.ctx, ast.Store)]
             if len(stores) != 1 or m in self.params:
@@ -93,6 +123,8 @@ class Fn:
             if e.id not in self.assigned:
                 raise Refuse("free name %s" % e.id)
             return "(EVar %s)" % qs(e.id)
+        if isinstance(e, ast.Attribute) and self.method and isinstance(e.value, ast.Name) and e.value.id == "self":
+            return "(EVar %s)" % qs("self." + e.attr)
         if isinstance(e, ast.BinOp):
             if type(e.op) not in BINOPS:
                 raise Refuse("operator %s" % type(e.op).__name__)
@@ -113,9 +145,15 @@ class Fn:
                 out = "(%s %s %s)" % (c, p, out)
             return out
         if isinstance(e, ast.Compare):
+            l, r = e.left, e.comparators[0]
+            if (self.floats or self.numpy) and len(e.ops) == 1:
+                if isinstance(e.ops[0], (ast.Is, ast.IsNot)) and isinstance(r, ast.Constant) and r.value is None:
+                    t = "(EB1 BIsNone %s)" % self.expr(l)
+                    return t if isinstance(e.ops[0], ast.Is) else "(ENot %s)" % t
+                if isinstance(e.ops[0], (ast.In, ast.NotIn)):
+                    return "(ECmp %s %s %s)" % ("CIn" if isinstance(e.ops[0], ast.In) else "CNotIn", self.expr(l), self.expr(r))
             if len(e.ops) != 1 or type(e.ops[0]) not in CMPOPS:
                 raise Refuse("comparison")
-            l, r = e.left, e.comparators[0]
             # type(x) == str
             if isinstance(l, ast.Call) and isinstance(l.func, ast.Name) and l.func.id == "type" and len(l.args) == 1 \
                     and not l.keywords and isinstance(r, ast.Name) and r.id in TYPES and r.id not in self.assigned \
@@ -188,8 +226,22 @@ class Fn:
                     else:
                         raise Refuse("call of %s: missing argument %s" % (name, p))
                 return "(ECall %s %s)" % (qs(name), coq_list(out))
+            if name in self.numpy:
+                kws = {k.arg: k.value for k in e.keywords}
+                dtype_int = "dtype" not in kws or (isinstance(kws["dtype"], ast.Name) and kws["dtype"].id == "int"
+                                                   and "int" not in self.assigned)
+                if name in ("where", "argsort", "sum") and len(e.args) == 1 and not kws:
+                    return "(EB1 %s %s)" % ({"where": "BNpWhere", "argsort": "BNpArgsort", "sum": "BNpSum"}[name], self.expr(e.args[0]))
+                if name == "array" and len(e.args) == 1 and set(kws) <= {"dtype"} and dtype_int:
+                    return "(EB1 BNpArray %s)" % self.expr(e.args[0])
+                if name == "zeros" and not e.args and set(kws) == {"shape", "dtype"} and dtype_int \
+                        and isinstance(kws["shape"], ast.Tuple) and len(kws["shape"].elts) == 1:
+                    return "(EB1 BNpZeros %s)" % self.expr(kws["shape"].elts[0])
+                raise Refuse("numpy call %s" % ast.unparse(e)[:60])
             if e.keywords:
                 raise Refuse("keyword arguments to %s" % name)
+            if name in ("sum", "max", "min", "any", "all", "sorted") :
+                raise Refuse("builtin %s" % name)
             if name in B1 and len(e.args) == 1:
                 return "(EB1 %s %s)" % (B1[name], self.expr(e.args[0]))
             if name == "range":
@@ -209,6 +261,15 @@ class Fn:
                 if isinstance(g, ast.Attribute) and g.attr == "index":
                     return "(EB2 BMapIndex %s %s)" % (self.expr(g.value), self.expr(e.args[1]))
             raise Refuse("call of %s/%d" % (name, len(e.args)))
+        if self.floats and isinstance(f, ast.Attribute) and not e.keywords:
+            if f.attr == "count" and len(e.args) == 1:
+                return "(EB2 BCount %s %s)" % (self.expr(f.value), self.expr(e.args[0]))
+            if f.attr == "replace" and len(e.args) == 2:
+                return "(EReplace %s %s %s)" % (self.expr(f.value), self.expr(e.args[0]), self.expr(e.args[1]))
+            if f.attr == "upper" and len(e.args) == 0:
+                return "(EB1 BUpper %s)" % self.expr(f.value)
+        if self.numpy and isinstance(f, ast.Attribute) and not e.keywords and len(e.args) == 1 and f.attr == "index":
+            return "(EB2 BIndexOf %s %s)" % (self.expr(f.value), self.expr(e.args[0]))
         if isinstance(f, ast.Attribute) and not e.keywords and len(e.args) == 1:
             if f.attr == "zfill":
                 return "(EB2 BZfill %s %s)" % (self.expr(f.value), self.expr(e.args[0]))
@@ -222,12 +283,17 @@ class Fn:
 
     # ---------------------------------------------------------------- statements
     def target(self, t):
+        if self.method and isinstance(t, ast.Attribute) and isinstance(t.value, ast.Name) and t.value.id == "self":
+            return "(TVar %s)" % qs("self." + t.attr)
         if isinstance(t, ast.Name):
             if t.id in self.monitors:
                 raise Refuse("monitor")
             return "(TVar %s)" % qs(t.id)
         if isinstance(t, ast.Tuple) and all(isinstance(x, ast.Name) for x in t.elts):
             return "(TTuple %s)" % coq_list([qs(x.id) for x in t.elts])
+        if self.numpy and isinstance(t, ast.Tuple) and len(t.elts) == 2 and isinstance(t.elts[0], ast.Name) \
+                and isinstance(t.elts[1], ast.Tuple) and all(isinstance(x, ast.Name) for x in t.elts[1].elts):
+            return "(TPair %s %s)" % (qs(t.elts[0].id), coq_list([qs(x.id) for x in t.elts[1].elts]))
         if isinstance(t, ast.Subscript) and isinstance(t.value, ast.Name) and not isinstance(t.slice, ast.Slice):
             return "(TIndex %s %s)" % (qs(t.value.id), self.expr(t.slice))
         raise Refuse("assignment target %s" % ast.unparse(t)[:40])
@@ -247,6 +313,11 @@ class Fn:
             v = s.value
             if isinstance(v, ast.Constant) and isinstance(v.value, str):
                 return None                                   # docstring
+            if self.method and isinstance(v, ast.Call) and isinstance(v.func, ast.Attribute) and v.func.attr == "__init__" \
+                    and isinstance(v.func.value, ast.Call) and isinstance(v.func.value.func, ast.Name) \
+                    and v.func.value.func.id == "super" and not v.func.value.args and not v.args \
+                    and all(isinstance(k.value, ast.Constant) for k in v.keywords):
+                return None          # the base class constructor with constant arguments (it stores a display name): not modelled
             if isinstance(v, ast.Call) and isinstance(v.func, ast.Name) and v.func.id in self.monitors and not v.keywords:
                 return "(SExpr (ETuple %s))" % coq_list([self.expr(a) for a in v.args])
             if isinstance(v, ast.Call) and isinstance(v.func, ast.Attribute) and isinstance(v.func.value, ast.Name) \
@@ -273,8 +344,6 @@ class Fn:
             if s.orelse:
                 raise Refuse("for/else")
             t = s.target
-            if not (isinstance(t, ast.Name) or (isinstance(t, ast.Tuple) and all(isinstance(x, ast.Name) for x in t.elts))):
-                raise Refuse("for target")
             return "(SFor %s %s\n %s)" % (self.target(t), self.expr(s.iter), self.block(s.body))
         if isinstance(s, ast.While):
             if s.orelse:
@@ -315,9 +384,13 @@ class Fn:
             if isinstance(v, ast.Call) and isinstance(v.func, ast.Name) and v.func.id in ("list", "map", "range") \
                     and v.func.id not in self.assigned:
                 return True
+            if isinstance(v, ast.Call) and isinstance(v.func, ast.Name) and v.func.id in ("array", "zeros") and v.func.id in self.numpy:
+                return True
             if isinstance(v, ast.Call) and isinstance(v.func, ast.Attribute) and v.func.attr == "join":
                 return True
             return False
+        # a display that is returned hands its elements over to the caller: nothing of this function runs afterwards
+        returned = {id(n.value) for n in ast.walk(node) if isinstance(n, ast.Return) and n.value is not None}
         for n in ast.walk(node):
             if isinstance(n, ast.Assign):
                 t, v = n.targets[0], n.value
@@ -337,7 +410,7 @@ class Fn:
                 for val in vals:
                     if isinstance(val, ast.Name) and val.id in mutated:
                         raise Refuse("aliasing: mutated name %s copied by reference" % val.id)
-            if isinstance(n, (ast.List, ast.Tuple)) and isinstance(getattr(n, "ctx", None), ast.Load):
+            if isinstance(n, (ast.List, ast.Tuple)) and isinstance(getattr(n, "ctx", None), ast.Load) and id(n) not in returned:
                 for val in n.elts:
                     if isinstance(val, ast.Name) and val.id in mutated:
                         raise Refuse("aliasing: mutated name %s inside a display" % val.id)
@@ -382,11 +455,12 @@ class Fn:
                 if p in mutations(st):
                     raise Refuse("aliasing: parameter %s is mutated before it is re-bound" % p)
 
-    def translate(self):
+    def translate(self, name=None):
         self.check_aliasing()
         body = self.block(self.node.body)
+        params = self.params + ["self." + a for a in self.attrs_read if a not in self.attrs_written]
         return ("Definition %s_def : fundef :=\n {| params := %s;\n    body :=\n %s |}.\n"
-                % (self.node.name, coq_list([qs(p) for p in self.params]), body))
+                % (name or self.node.name, coq_list([qs(p) for p in params]), body))
 
 
 def generate(repo, out_path, funcs=None):
@@ -425,6 +499,114 @@ def generate(repo, out_path, funcs=None):
     return funcs
 
 
+CODER_FUNCS = ["set_vt", "encode", "decode"]
+
+
+def generate_coder(repo, out_path):
+    """dsw/spiderweb.py: set_vt, encode, decode as MiniPy terms (NumPy arrays are VArr values, the few numpy functions used
+    are builtins of MiniPy.v); the functions of dsw/operation.py they call are resolved in OperationGen.operation_module."""
+    tree = ast.parse(open(os.path.join(repo, "dsw", "spiderweb.py")).read())
+    op_tree = ast.parse(open(os.path.join(repo, "dsw", "operation.py")).read())
+    defs = {n.name: n for n in tree.body if isinstance(n, ast.FunctionDef)}
+    names = [n.name for n in tree.body if isinstance(n, (ast.FunctionDef, ast.ClassDef))]
+    numpy_names, op_names = set(), set()
+    for n in tree.body:
+        if isinstance(n, ast.ImportFrom):
+            for a in n.names:
+                if a.asname is not None:
+                    raise Refuse("import ... as")
+                if n.module == "numpy":
+                    numpy_names.add(a.name)
+                elif n.module == "dsw.operation":
+                    op_names.add(a.name)
+        elif isinstance(n, ast.Import):
+            raise Refuse("plain import at module level")
+        elif isinstance(n, (ast.Assign, ast.AugAssign, ast.AnnAssign)):
+            raise Refuse("module-level assignment")
+    for f in CODER_FUNCS:
+        if names.count(f) != 1:
+            raise Refuse("%s defined %d times" % (f, names.count(f)))
+    # names a function could silently pick up from elsewhere: a module function shadowing an operation / numpy name
+    for f in names:
+        if f in numpy_names or f in op_names:
+            raise Refuse("%s shadows an imported name" % f)
+    sigs = {}
+    op_defs = {n.name: n for n in op_tree.body if isinstance(n, ast.FunctionDef)}
+    for f in list(CODER_FUNCS) + [x for x in FUNCS if x in op_names]:
+        d = defs[f] if f in defs else op_defs.get(f)
+        if d is None:
+            raise Refuse("function %s not found" % f)
+        a = d.args
+        params = [x.arg for x in a.args]
+        dflt = dict(zip(params[len(params) - len(a.defaults):], a.defaults))
+        for v in dflt.values():
+            if not isinstance(v, ast.Constant):
+                raise Refuse("non-constant default in %s" % f)
+        sigs[f] = (params, dflt)
+    used_numpy = {"where", "argsort", "sum", "array", "zeros"} & numpy_names
+    parts = ["(* GENERATED by harness/translate_minipy.py from %s/dsw/spiderweb.py -- do not edit *)\n"
+             "From DSW Require Import MiniPy.\nFrom DSWGen Require Import OperationGen.\nOpen Scope Z_scope.\n" % repo]
+    for f in CODER_FUNCS:
+        fn = Fn(defs[f], sigs, numpy=used_numpy)
+        # a call of a numpy function that was not imported from numpy would be a free name: refused by expr()
+        parts.append(fn.translate())
+    parts.append("Definition coder_module : module :=\n (%s ++ operation_module).\n"
+                 % coq_list(["(%s, %s_def)" % (qs(f), f) for f in reversed(CODER_FUNCS)]))
+    open(out_path, "w").write("\n".join(parts))
+    return CODER_FUNCS
+
+
+BIOFILTER_FUNCS = ["LocalBioFilter.__init__", "LocalBioFilter.valid"]
+
+
+def generate_biofilter(repo, out_path):
+    """dsw/biofilter.py, class LocalBioFilter: the constructor and valid() as MiniPyF terms.  A method's parameters are its own
+    (without self) followed by the attributes it reads, in order of first occurrence; `self.x = e` is an assignment to the
+    variable "self.x"."""
+    tree = ast.parse(open(os.path.join(repo, "dsw", "biofilter.py")).read())
+    classes = [n for n in tree.body if isinstance(n, ast.ClassDef) and n.name == "LocalBioFilter"]
+    if len(classes) != 1:
+        raise Refuse("class LocalBioFilter not found exactly once")
+    cls = classes[0]
+    if cls.decorator_list or cls.keywords or len(cls.bases) != 1 or not isinstance(cls.bases[0], ast.Name) \
+            or cls.bases[0].id != "DefaultBioFilter":
+        raise Refuse("class header")
+    # the base class must not define anything valid() could pick up instead (no __getattr__ tricks, no properties)
+    for n in tree.body:
+        if isinstance(n, ast.ClassDef) and n.name == "DefaultBioFilter":
+            for x in n.body:
+                if isinstance(x, ast.FunctionDef) and x.name not in ("__init__", "valid", "__str__"):
+                    raise Refuse("DefaultBioFilter defines %s" % x.name)
+    methods = {}
+    for x in cls.body:
+        if isinstance(x, ast.FunctionDef):
+            if x.name in methods:
+                raise Refuse("%s defined twice" % x.name)
+            methods[x.name] = x
+        elif not (isinstance(x, ast.Expr) and isinstance(x.value, ast.Constant)):
+            raise Refuse("class-level statement %s" % type(x).__name__)
+    for x in methods:
+        if x not in ("__init__", "valid", "__str__"):
+            raise Refuse("unexpected method %s" % x)
+    parts = ["(* GENERATED by harness/translate_minipy.py from %s/dsw/biofilter.py -- do not edit *)\n"
+             "From DSW Require Import MiniPyF.\nOpen Scope Z_scope.\n" % repo]
+    for m, nm in (("__init__", "filter_init"), ("valid", "filter_valid")):
+        if m not in methods:
+            raise Refuse("method %s not found" % m)
+        for d in methods[m].args.defaults:
+            if not isinstance(d, ast.Constant):
+                raise Refuse("non-constant default")
+        parts.append(Fn(methods[m], {}, method=True, floats=True).translate(nm))
+    open(out_path, "w").write("\n".join(parts))
+    return BIOFILTER_FUNCS
+
+
 if __name__ == "__main__":
     import sys
+    if sys.argv[1:2] == ["biofilter"]:
+        generate_biofilter(sys.argv[2], sys.argv[3])
+        sys.exit(0)
+    if sys.argv[1:2] == ["coder"]:
+        generate_coder(sys.argv[2], sys.argv[3])
+        sys.exit(0)
     generate(sys.argv[1] if len(sys.argv) > 1 else "/repo", sys.argv[2] if len(sys.argv) > 2 else "/dev/stdout")
